@@ -138,6 +138,9 @@ func checkC12(c *Ctx, r *Report) {
 	}
 	r.fnSeen(fns...)
 	lockRules(c, r, eng, "C12", eng.sums, 6, 2)
+	if a := c.anchors(); len(a.missing) == 0 {
+		c12Handout(c, r, eng, a)
+	}
 }
 
 func okWrite(eng *effEngine, ef effect) bool {
@@ -253,4 +256,42 @@ func reachesClass(adj map[string][]string, from, to string, seen map[string]bool
 		}
 	}
 	return false
+}
+
+// c12Handout: what the library hands to application code belongs to that call: the argument map given to a
+// resolver is allocated for the invocation (a map made in the call chain of this field evaluation, or nil). A
+// map taken from storage that outlives the call (a pool, a cache on a schema node, a package variable) is
+// still referenced by the application when the next request refills it: a resolver that keeps its arguments
+// (a subscription, a lazily resolved result object) then computes from another request's values.
+func c12Handout(c *Ctx, r *Report, eng *effEngine, a *Anchors) {
+	r.rule("C12.HANDOUT", "the argument map passed to Resolver.Resolve / AnyResolver.Resolve is request-fresh: every provenance path of the operand is an allocation made during the call (or nil)")
+	n := 0
+	for _, fn := range []*ssa.Function{a.field, a.reflectRes} {
+		if fn == nil {
+			continue
+		}
+		k := 0
+		for _, ci := range callsIn(fn) {
+			call, ok := ci.(*ssa.Call)
+			if !ok || !c.isResolverInvoke(call) {
+				continue
+			}
+			for _, arg := range call.Call.Args {
+				if !isStrIfaceMap(arg.Type()) {
+					continue
+				}
+				n++
+				k++
+				bad := ""
+				for _, p := range eng.prov(fn, arg).sorted() {
+					if p.kind != rFresh {
+						bad = p.String()
+					}
+				}
+				r.check("C12.HANDOUT", fmt.Sprintf("%s: argument map #%d handed to %s is allocated for this invocation", fnName(fn), k, calleeDesc(call)), call.Pos(), bad == "",
+					"the map may come from "+bad+": storage that outlives the invocation and is reused by other requests, while the application may still hold the map it was given")
+			}
+		}
+	}
+	r.floor("C12.HANDOUT", "argument maps handed to application resolvers", n, 2)
 }
